@@ -1468,6 +1468,15 @@ class GateauxDerivativeRuleset(GenericDerivativeRuleset):
                 # Case: d/dt [w + t v]
                 return apply_grads(v)
 
+        # A user-supplied relation {o: do/dw} makes grad(o) depend on w through
+        # grad(do/dw : v), which this rule cannot represent: refuse instead of
+        # silently treating grad(o) as independent of w.
+        if o in self._cd:
+            raise NotImplementedError(
+                "Gateaux derivative of grad(f) for a coefficient f with a user-supplied "
+                "coefficient derivative is not supported."
+            )
+
         # If o is not among coefficient derivatives, return do/dw=0
         gprimesum = Zero(g.ufl_shape)
 
